@@ -321,6 +321,7 @@ void vf_run(const uint8_t *data, size_t len)
         nops++;
         Obs oa, ob;
         uint64_t fh = g_faults_hit;
+        if (c16 && g_faults_hit && g_also_ours.empty()) g_also_ours = {"C08"};
         apply(M, cx, op, a, b, K, maxlive, twin ? &oa : nullptr);
         if (cx.fault_seen) cx.ops_after_fault++;
         if (g_faults_hit != fh) cx.fault_seen = true;
